@@ -225,6 +225,30 @@ def run(ctx: Ctx):
         if isinstance(nnode, ast.Assign) and len(nnode.targets) == 1 and u(nnode.targets[0]) in (
                 "self._rank", "self._world_size") and isinstance(nnode.value, ast.Constant):
             fb[u(nnode.targets[0])] = nnode.value.value
+    # under 'ignore' the process group must never determine rank / world size: every non-constant assignment of
+    # them is dominated by `on_uneven_distributed != 'ignore'`
+    def _conj(t, text):
+        if u(t) == text:
+            return True
+        return isinstance(t, ast.BoolOp) and isinstance(t.op, ast.And) and any(_conj(v, text) for v in t.values)
+    ndist = 0
+    for nnode in own_nodes(init.node):
+        if isinstance(nnode, ast.Assign):
+            tg = []
+            for t in nnode.targets:
+                tg.extend(t.elts if isinstance(t, ast.Tuple) else [t])
+            if any(u(t) in ("self._rank", "self._world_size") for t in tg) and not (
+                    isinstance(nnode.value, ast.Constant) or (isinstance(nnode.value, ast.Tuple) and all(
+                        isinstance(x, ast.Constant) for x in nnode.value.elts))):
+                ndist += 1
+                gs = guards_of(pm, nnode)
+                okg = any((pol and _conj(t, "on_uneven_distributed != 'ignore'"))
+                          or ((not pol) and _conj(t, "on_uneven_distributed == 'ignore'")) for t, pol in gs)
+                col.ob("G8", "S4", f"{where}::ignore-excludes-process-group({u(tg[0])})", okg,
+                       f"`{u(nnode)}` takes the rank/world size from the process group on a branch that is not "
+                       f"excluded for on_uneven_distributed == 'ignore': under 'ignore' a rank would get a shard "
+                       f"instead of the full epoch", rel, nnode.lineno, sample=u(nnode))
+    col.floor("process_group_assignments", ndist, 2)
     col.ob("G8", "S4", f"{where}::ignore-fallback", fb == {"self._rank": 0, "self._world_size": 1},
            f"the non-distributed / 'ignore' fallback sets {fb}, expected rank 0 of world 1", rel, init.line,
            sample=fb)
@@ -298,6 +322,8 @@ def _mutants():
         M("sequential-from-one", T, "return range(self.total)", "return range(1, self.total)", "range-total"),
         M("fallback-rank-1", T, "self._rank = 0\nself._world_size = 1", "self._rank = 1\nself._world_size = 1",
           "ignore-fallback"),
+        M("ignore-only-when-indivisible", T, "if on_uneven_distributed != 'ignore' and torch.distributed.is_available() and torch.distributed.is_initialized() and (torch.distributed.get_rank() >= 0):",
+          "if torch.distributed.is_available() and torch.distributed.is_initialized() and (torch.distributed.get_rank() >= 0):", "ignore-excludes-process-group"),
         M("twin:rename-ret", T, "ret = self.get_samples_for_epoch_ignoring_distributed(epoch)\nreturn islice(ret,",
           "order = self.get_samples_for_epoch_ignoring_distributed(epoch)\nreturn islice(order,", "", twin=True),
     ]
